@@ -28,6 +28,18 @@ def _const_dict(node):
 
 
 def run(ck, ctx):
+    _semantic(ck, ctx)
+    n_bad = len([o for o in ck.obligations if not o.ok])
+    try:
+        _structural(ck, ctx)
+    except AnalysisError as e:
+        # the function was restructured; its behaviour on the representative flat results is what the property describes
+        ck.note(f"structural rules not applicable to the current shape of the regrouping function ({e}); decided by O-group alone")
+    from ..rules.fragments import run_fragment
+    run_fragment(ck, ctx, "entities", tier=ck.tier, only_rules={"O-final"})
+
+
+def _structural(ck, ctx):
     m = ctx.model
     f = m.func("simple_ddl_parser.output.core:Output.group_by_type_result")
     ck.explanation = (
@@ -231,9 +243,89 @@ def run(ck, ctx):
         ck.ob("T-AGREE.markers", f"marker `{kind}` has a writer", bool(ws),
               f"writers: {sorted(set(ws))[:4]}: a marker nobody writes means entities of that kind carry another key and are lost "
               "by the regrouping", "")
-    # the entity statement forms, evaluated down to the grouped output (shared fragment with C18)
-    from ..rules.fragments import run_fragment
-    run_fragment(ck, ctx, "entities", tier=ck.tier, only_rules={"O-final"})
     ck.assumptions += ["an entity's kind is identified by its marker key, as the property's bucket list implies",
                        "entity dicts of the supported kinds carry no marker key of another kind (checked for the statement forms of "
                        "the C18 entity fragments by that check's O-value obligations)"]
+
+
+def _semantic(ck, ctx):
+    """group_by_type_result evaluated abstractly (objabs) on representative flat results, against the regrouping the property
+    describes - independent of how the function is written"""
+    import copy
+    import itertools
+    from ..objabs import eval_method
+    from ..pyabs import W, PyRaise, LexUnknown, NonUniform, deep_eq
+    def w(*xs):
+        return W(list(xs) + list(xs)[: 6 - len(xs)]) if len(set(xs)) > 1 else xs[0]
+    ents = {
+        "table_name": {"table_name": w("t", "Orders", "x_1"), "schema": None, "columns": [], "value": w("v", "k", "z")},
+        "sequence_name": {"schema": None, "sequence_name": w("s1", "Seq", "q_2"), "increment": 1},
+        "type_name": {"schema": w("a", "B", "c_1"), "type_name": w("ty", "Mood", "t_3"), "base_type": "ENUM", "properties": {"values": []}},
+        "domain_name": {"schema": None, "domain_name": w("d", "Dom", "d_4"), "base_type": "int", "properties": {}},
+        "schema_name": {"schema_name": w("sc", "Sch", "s_5"), "comments": w("'c'", "'d'", "'e'")},
+        "tablespace_name": {"tablespace_name": w("ts", "Tsp", "t_6"), "properties": None, "type": None, "temporary": False},
+        "database_name": {"database_name": w("db", "Dbs", "d_7")},
+        "value": {"name": w("p", "Prop", "p_8"), "value": w("on", "1", "x")},
+        "value-empty": {"name": w("e", "Emp", "e_9"), "value": ""},
+    }
+    comments = {"comments": [w(" c1", " note", " x"), w(" c2", " more", " y")]}
+    kinds = list(ents)
+    scenarios = {
+        "one of each kind": [copy.deepcopy(ents[k]) for k in kinds],
+        "reverse order": [copy.deepcopy(ents[k]) for k in reversed(kinds)],
+        "same kinds separated by others": [copy.deepcopy(ents[k]) for k in ("tablespace_name", "table_name", "tablespace_name", "database_name",
+                                                                          "sequence_name", "database_name", "table_name", "value", "value")],
+        "with comments": [copy.deepcopy(ents["table_name"]), copy.deepcopy(ents["type_name"]), copy.deepcopy(comments)],
+        "empty": [],
+        "only a property with an empty value": [copy.deepcopy(ents["value-empty"])],
+    }
+    key = ("simple_ddl_parser.output.core", "Output")
+    for name, flat in scenarios.items():
+        try:
+            _res, attrs = eval_method(ctx, key, {"parser_output": [], "output_mode": "sql", "group_by_type": True},
+                                      {"final_result": copy.deepcopy(flat)}, "group_by_type_result")
+        except PyRaise as pr:
+            ck.ob("O-group", f"regrouping raises on: {name}", False, f"{type(pr.exc).__name__}: {pr.exc}", "Output.group_by_type_result")
+            continue
+        except (LexUnknown, NonUniform) as e:
+            raise AnalysisError(f"group_by_type_result outside the interpreted subset ({name}): {e}")
+        got = attrs.get("final_result")
+        problem = None
+        if not isinstance(got, dict):
+            problem = f"result is {type(got).__name__}, not the bucket dict"
+        else:
+            for b in ALWAYS:
+                if not isinstance(got.get(b), list):
+                    problem = f"bucket `{b}` missing"
+            exp = {}
+            texts = []
+            for item in flat:
+                if "comments" in item and not any(k in item for k in KIND_BUCKET if k not in ("comments", "value")):
+                    texts += item["comments"]
+                    continue
+                marker = [k for k in KIND_BUCKET if k in item][0]
+                exp.setdefault(KIND_BUCKET[marker], []).append(item)
+            if texts:
+                exp["comments"] = texts
+            if problem is None:
+                for b, items in exp.items():
+                    g = got.get(b)
+                    if not isinstance(g, list) or len(g) != len(items) or not all(_eq(a, x) for a, x in zip(items, g)):
+                        problem = f"bucket `{b}`: expected {len(items)} item(s) in source order, got {g if not isinstance(g, list) else len(g)}"
+                        break
+                extra = [b for b, v in got.items() if b not in exp and v]
+                if problem is None and extra:
+                    problem = f"unexpected content in bucket(s) {extra}"
+                if problem is None and "comments" in got and not texts:
+                    problem = "an empty comments bucket is reported"
+        ck.ob("O-group", f"regrouping of: {name}", problem is None,
+              problem or "every entity once, unchanged, in the bucket of its kind, in order; documented buckets present",
+              "Output.group_by_type_result")
+
+
+def _eq(a, b):
+    from ..pyabs import deep_eq, NonUniform
+    try:
+        return deep_eq(a, b)
+    except NonUniform:
+        return False
